@@ -1,1 +1,220 @@
-// harness
+// Harnesses for src/read.rs: extra-field parsing (C05, C08, C16), central header parsing
+// (C03, C05, C19), archive opening and entry access (C03, C04, C05, C10, C15, C20).
+#[allow(unused_imports)]
+use crate::verif_kit::*;
+#[allow(unused_imports)]
+use std::io::{Read, Seek, SeekFrom, Write};
+
+const THR32: u32 = 0xFFFF_FFFF;
+
+fn zfd_for_extra(extra: Vec<u8>, usz: u32, csz: u32, off: u32, method: u16) -> ZipFileData {
+    #[allow(deprecated)]
+    ZipFileData {
+        system: System::Unix,
+        version_made_by: 20,
+        encrypted: false,
+        using_data_descriptor: false,
+        compression_method: CompressionMethod::from_u16(method),
+        compression_level: None,
+        last_modified_time: DateTime::default(),
+        crc32: 0,
+        compressed_size: csz as u64,
+        uncompressed_size: usz as u64,
+        file_name: String::new(),
+        file_name_raw: Vec::new(),
+        extra_field: extra,
+        file_comment: String::new(),
+        header_start: off as u64,
+        central_header_start: 0,
+        data_start: AtomicU64::new(0),
+        external_attributes: 0,
+        large_file: false,
+        aes_mode: None,
+    }
+}
+
+macro_rules! c08_parse_zip64 {
+    ($name:ident, $u:expr, $c:expr, $o:expr) => {
+        #[kani::proof]
+        #[kani::unwind(12)]
+        fn $name() {
+            const U: bool = $u;
+            const C: bool = $c;
+            const O: bool = $o;
+            const K: usize = (U as usize) + (C as usize) + (O as usize);
+            const XLEN: usize = 5 + 4 + 8 * K + 6;
+            // layout: [unknown record id1, 1-byte body] [0x0001, 8K bytes] [unknown id2, 2-byte body]
+            let id1: u16 = kani::any();
+            let id2: u16 = kani::any();
+            kani::assume(id1 != 0x0001 && id1 != 0x9901 && id2 != 0x0001 && id2 != 0x9901);
+            let v: [u64; 3] = kani::any();
+            let junk: [u8; 3] = kani::any();
+            let mut x = [0u8; XLEN];
+            put16(&mut x, 0, id1);
+            put16(&mut x, 2, 1);
+            x[4] = junk[0];
+            put16(&mut x, 5, 0x0001);
+            put16(&mut x, 7, (8 * K) as u16);
+            let mut p = 9;
+            if U {
+                put64(&mut x, p, v[0]);
+                p += 8;
+            }
+            if C {
+                put64(&mut x, p, v[1]);
+                p += 8;
+            }
+            if O {
+                put64(&mut x, p, v[2]);
+                p += 8;
+            }
+            put16(&mut x, p, id2);
+            put16(&mut x, p + 2, 2);
+            x[p + 4] = junk[1];
+            x[p + 5] = junk[2];
+            let usz: u32 = if U { THR32 } else { kani::any() };
+            let csz: u32 = if C { THR32 } else { kani::any() };
+            let off: u32 = if O { THR32 } else { kani::any() };
+            kani::assume(U || usz != THR32);
+            kani::assume(C || csz != THR32);
+            kani::assume(O || off != THR32);
+            let method: u16 = kani::any();
+            let mut f = zfd_for_extra(x.to_vec(), usz, csz, off, method);
+            let r = parse_extra_field(&mut f);
+            assert!(r.is_ok());
+            assert_eq!(f.uncompressed_size, if U { v[0] } else { usz as u64 });
+            assert_eq!(f.compressed_size, if C { v[1] } else { csz as u64 });
+            assert_eq!(f.header_start, if O { v[2] } else { off as u64 });
+            assert_eq!(f.large_file, U || C);
+            assert!(f.aes_mode.is_none());
+            #[allow(deprecated)]
+            let m = f.compression_method.to_u16();
+            assert_eq!(m, method);
+            kani::cover!(K == 0 || v[0] > 0xFFFF_FFFF || v[1] > 0xFFFF_FFFF || v[2] > 0xFFFF_FFFF);
+            core::mem::forget(r);
+            core::mem::forget(f);
+        }
+    };
+}
+/// C08/C03 reader: ZIP64 extended-information record from another producer, placed between two
+/// unknown records (arbitrary IDs/bodies). Exactly the fields whose 32-bit value is the
+/// sentinel are taken from the record, in APPNOTE order, for all 64-bit values; other fields,
+/// the method and the AES state are untouched. Subset {} of (orig size, comp size, offset).
+// @h prop=C08,C03 tier=quick t=600 mem=8 name=c08_parse_zip64_000
+c08_parse_zip64!(c08_parse_zip64_000, false, false, false);
+/// C08 reader ZIP64 record, subset {orig}.
+// @h prop=C08,C03 tier=quick t=600 mem=8 name=c08_parse_zip64_100
+c08_parse_zip64!(c08_parse_zip64_100, true, false, false);
+/// C08 reader ZIP64 record, subset {comp}.
+// @h prop=C08,C03 tier=quick t=600 mem=8 name=c08_parse_zip64_010
+c08_parse_zip64!(c08_parse_zip64_010, false, true, false);
+/// C08 reader ZIP64 record, subset {offset}.
+// @h prop=C08,C03 tier=quick t=600 mem=8 name=c08_parse_zip64_001
+c08_parse_zip64!(c08_parse_zip64_001, false, false, true);
+/// C08 reader ZIP64 record, subset {orig, comp}.
+// @h prop=C08,C03 tier=quick t=600 mem=8 name=c08_parse_zip64_110
+c08_parse_zip64!(c08_parse_zip64_110, true, true, false);
+/// C08 reader ZIP64 record, subset {orig, offset}.
+// @h prop=C08,C03 tier=quick t=600 mem=8 name=c08_parse_zip64_101
+c08_parse_zip64!(c08_parse_zip64_101, true, false, true);
+/// C08 reader ZIP64 record, subset {comp, offset}.
+// @h prop=C08,C03 tier=quick t=600 mem=8 name=c08_parse_zip64_011
+c08_parse_zip64!(c08_parse_zip64_011, false, true, true);
+/// C08 reader ZIP64 record, subset {orig, comp, offset}.
+// @h prop=C08,C03 tier=quick t=600 mem=8 name=c08_parse_zip64_111
+c08_parse_zip64!(c08_parse_zip64_111, true, true, true);
+
+macro_rules! c05_parse_extra_any {
+    ($name:ident, $n:expr) => {
+        #[kani::proof]
+        #[kani::unwind(12)]
+        fn $name() {
+            const N: usize = $n;
+            let x: [u8; N] = kani::any();
+            let usz: u32 = kani::any();
+            let csz: u32 = kani::any();
+            let off: u32 = kani::any();
+            let mut f = zfd_for_extra(x.to_vec(), usz, csz, off, kani::any());
+            let r = parse_extra_field(&mut f);
+            // no panic, no overflow, terminates (unwinding assertion): that is the claim.
+            kani::cover!(r.is_ok());
+            kani::cover!(r.is_err());
+            core::mem::forget(r);
+            core::mem::forget(f);
+        }
+    };
+}
+/// C05 extra-field parser over EVERY byte string of length 4 with arbitrary size/offset
+/// sentinels: terminates without panic/overflow.
+// @h prop=C05 tier=quick t=600 mem=8 name=c05_parse_extra_any_4
+c05_parse_extra_any!(c05_parse_extra_any_4, 4);
+/// C05 extra-field parser over every byte string of length 11 (an AES record fits exactly).
+// @h prop=C05,C16 tier=quick t=900 mem=10 name=c05_parse_extra_any_11
+c05_parse_extra_any!(c05_parse_extra_any_11, 11);
+/// C05 extra-field parser over every byte string of length 7.
+// @h prop=C05 tier=thorough t=900 mem=10 name=c05_parse_extra_any_7
+c05_parse_extra_any!(c05_parse_extra_any_7, 7);
+/// C05 extra-field parser over every byte string of length 13.
+// @h prop=C05 tier=thorough t=1800 mem=16 name=c05_parse_extra_any_13
+c05_parse_extra_any!(c05_parse_extra_any_13, 13);
+
+/// C16(a) AES extra field (0x9901): every 7-byte body maps to the documented
+/// (strength, AE-version) pair and inner method, or to the documented error; a body length other
+/// than 7 is refused.
+// @h prop=C16 tier=quick t=600 mem=8
+#[kani::proof]
+#[kani::unwind(12)]
+fn c16_parse_aes_extra() {
+    let len: u16 = kani::any();
+    let vv: u16 = kani::any();
+    let vendor: u16 = kani::any();
+    let strength: u8 = kani::any();
+    let inner: u16 = kani::any();
+    let mut x = [0u8; 11];
+    put16(&mut x, 0, 0x9901);
+    put16(&mut x, 2, len);
+    put16(&mut x, 4, vv);
+    put16(&mut x, 6, vendor);
+    x[8] = strength;
+    put16(&mut x, 9, inner);
+    let mut f = zfd_for_extra(x.to_vec(), 1, 1, 0, 99);
+    let r = parse_extra_field(&mut f);
+    let good = len == 7 && vendor == 0x4541 && (vv == 1 || vv == 2) && (strength >= 1 && strength <= 3);
+    match &r {
+        Ok(()) => {
+            assert!(good);
+            match f.aes_mode {
+                Some((mode, ver)) => {
+                    assert!(match mode {
+                        AesMode::Aes128 => strength == 1,
+                        AesMode::Aes192 => strength == 2,
+                        AesMode::Aes256 => strength == 3,
+                    });
+                    assert!(match ver {
+                        AesVendorVersion::Ae1 => vv == 1,
+                        AesVendorVersion::Ae2 => vv == 2,
+                    });
+                }
+                None => assert!(false, "AES extra accepted but no mode recorded"),
+            }
+            #[allow(deprecated)]
+            let m = f.compression_method.to_u16();
+            assert_eq!(m, inner);
+            kani::cover!(strength == 3 && vv == 2);
+            kani::cover!(strength == 1 && vv == 1);
+        }
+        Err(e) => {
+            assert!(!good);
+            match e {
+                ZipError::UnsupportedArchive(_) => assert!(len != 7),
+                ZipError::InvalidArchive(_) => assert!(len == 7),
+                _ => assert!(false, "unexpected error kind"),
+            }
+            assert!(f.aes_mode.is_none());
+            kani::cover!(len == 7 && vendor != 0x4541);
+            kani::cover!(len != 7);
+        }
+    }
+    core::mem::forget(r);
+    core::mem::forget(f);
+}
